@@ -1,3 +1,5 @@
+//go:build go1.25
+
 package props
 
 // bufstep — model-based stateful testing of bigbuff.Buffer and its consumers inside a
